@@ -70,6 +70,7 @@ impl<'names> GlifParser<'names> {
                         return Err(ErrorKind::DuplicateElement("outline").into());
                     }
                     b"outline" => {
+                        expect_no_attributes(&start)?;
                         seen_outline = true;
                         self.parse_outline(reader, buf)?;
                     }
@@ -77,6 +78,7 @@ impl<'names> GlifParser<'names> {
                         return Err(ErrorKind::DuplicateElement("lib").into());
                     }
                     b"lib" => {
+                        expect_no_attributes(&start)?;
                         seen_lib = true;
                         self.parse_lib(reader, raw_xml, buf)?;
                     }
@@ -87,6 +89,7 @@ impl<'names> GlifParser<'names> {
                         return Err(ErrorKind::DuplicateElement("note").into());
                     }
                     b"note" => {
+                        expect_no_attributes(&start)?;
                         seen_note = true;
                         self.parse_note(reader, buf)?;
                     }
@@ -98,6 +101,7 @@ impl<'names> GlifParser<'names> {
                         return Err(ErrorKind::DuplicateElement("outline").into());
                     }
                     b"outline" => {
+                        expect_no_attributes(&start)?;
                         seen_outline = true;
                     }
                     b"advance" if seen_advance => {
@@ -141,10 +145,6 @@ impl<'names> GlifParser<'names> {
         buf: &mut Vec<u8>,
     ) -> Result<(), GlifLoadError> {
         let mut outline_builder = OutlineBuilder::new();
-
-        // TODO: Not checking for (the absence of) attributes here because we'd need to
-        // pass through the element data, but that'd clash with the mutable borrow of
-        // buf. Better way?
 
         loop {
             match reader.read_event_into(buf)? {
@@ -544,6 +544,15 @@ impl<'names> GlifParser<'names> {
             None => Err(ErrorKind::BadImage.into()),
         }
     }
+}
+
+/// Errors if the element has an attribute; outline, lib and note have none.
+fn expect_no_attributes(data: &BytesStart) -> Result<(), GlifLoadError> {
+    if let Some(attr) = data.attributes().next() {
+        attr?;
+        return Err(ErrorKind::UnexpectedAttribute.into());
+    }
+    Ok(())
 }
 
 /// Start parsing XML, expecting an opening `<glyph>` tag.
